@@ -16,9 +16,9 @@ for shape in (5, 6, 7):          # redefinition scenarios: direct evaluation onl
         for order in ((0, 1) if shape == 5 else (0,)):
             for mode in (0, 2):
                 redef.append([shape, site, order, mode])
-quick = [c for c in cases if c[2] in (0, 3, 5) or c[3] == 0] + redef
+quick = [c for c in cases if c[2] in (0, 5) or (c[3] == 0 and c[2] == 3)] + redef
 thorough = cases + redef
-findings = [[0,0,0,0],[0,1,0,1],[6,0,0,0],[7,0,0,0]]
+findings = [[0,2,5,0],[0,0,0,0],[0,1,0,1],[6,0,0,0],[7,0,0,0]]
 NOTE = ("Program = top-level forms: defuns of zza/zzb/zzc whose bodies are C01 trace forms calling each other with symbolic "
   "arguments, then main calls. shape: 0 chain a->b->c, 1 fan a->b,c, 2 mutual recursion a<->b guarded by a symbolic counter, 3 self "
   "recursion + call, 4 calls without arguments, 5 redefinition of the callee between two evaluations of the same main form, 6 "
@@ -37,11 +37,11 @@ NOTE = ("Program = top-level forms: defuns of zza/zzb/zzc whose bodies are C01 t
 spec = [
  {"id": "C08.order", "property": "C08", "pkg": "pkg/cl", "entry": "VerifC08Order", "extra_files": ["zz_verif_c01.go"],
   "cases": {"quick": quick, "thorough": thorough}, "reach": ["compared", "agreed"],
-  "max_depth": 400, "max_steps": 20000000, "solver_timeout_ms": 10000, "carves": [], "overrides": OVR, "note": NOTE,
+  "max_depth": 400, "max_steps": 20000000, "solver_timeout_ms": 10000, "int_mode": True, "carves": [], "overrides": OVR, "note": NOTE,
   "assumptions": ["<= 12 function calls per program"]},
  {"id": "C08.findings", "property": "C08", "pkg": "pkg/cl", "entry": "VerifC08Order", "extra_files": ["zz_verif_c01.go"],
   "cases": {"quick": findings, "thorough": findings}, "reach": ["compared"],
-  "max_depth": 400, "max_steps": 20000000, "solver_timeout_ms": 10000,
+  "max_depth": 400, "max_steps": 20000000, "solver_timeout_ms": 10000, "int_mode": True,
   "carves": ["C08-forward-call-drops-arguments", "C08-redefinition-not-seen-by-later-call-sites"], "overrides": OVR,
   "note": "Same entry on the programs that hit the known findings; the probe runs confirm that each still reproduces."},
 ]
